@@ -21,7 +21,9 @@ ALT = REPO != "/repo"
 WORK = os.path.join(REPO, ".vwork") if ALT else os.path.join(VERIF, ".work")
 COQ = os.path.join(WORK, "coq") if ALT else os.path.join(VERIF, "coq")
 EVIDENCE = os.path.join(WORK, "evidence") if ALT else os.path.join(VERIF, "evidence")
-SHM = "/dev/shm/walrus-verif" + ("-" + hashlib.sha256(REPO.encode()).hexdigest()[:8] if ALT else "")
+# run directories: one base per (framework copy, repository root), so that concurrent copies
+# of the framework and their clean-ups cannot touch each other's cases
+SHM = "/dev/shm/walrus-verif" + ("" if (VERIF == "/verif" and not ALT) else "-" + hashlib.sha256((VERIF + "|" + REPO).encode()).hexdigest()[:8])
 if ALT:
     os.makedirs(WORK, exist_ok=True)
     subprocess.run(["rsync", "-a", "--delete", os.path.join(VERIF, "coq") + "/", COQ + "/"], check=True)
